@@ -9,6 +9,20 @@ HERE = os.path.dirname(os.path.dirname(os.path.abspath(__file__)))
 CHECKS = {
     "C01": ("valid_matching invariant over Aligner.align candidates (ladders of seed peaks), every record of every file of every mode and every dispatched candidate; CLI sample equal to in-process",
             "property-based testing (Hypothesis): invariant recomputed from file text and harness maps; CLI differential"),
+    "C02": ("every record of every file of generated end-to-end runs (4 modes, both strands, second-pass records, offset queries) compared field by field with values recomputed from the CMAP text the harness wrote",
+            "property-based testing (Hypothesis): invariant recomputed from raw inputs via independent parser"),
+    "C04": ("every candidate, result row and Confidence cell of generated runs and of unit-level Aligner.align calls re-scored from harness maps, seed peak and the harness' copy of -sp/-dp/-su/-d; single-seed candidates tied to -ms/-bs through the C13 reference scan",
+            "property-based testing (Hypothesis): recomputation + reference-model differential"),
+    "C05": ("one-record-per-query invariant over all files and modes; seed selection and best-candidate choice re-derived from the dispatched messages (tie-tolerant); 'best' mode query set and order compared with 'separate' mode",
+            "property-based testing (Hypothesis): invariant + reference selection over recorded candidates"),
+    "C06": ("planted noise-free interior windows (15-45 labels, both strands, offsets, all modes) must be reported with exactly the planted pairs, '<k>M' and offsets <= 200 bp; self-similar windows discarded by a stated guard",
+            "property-based testing (Hypothesis): metamorphic relation with known placement"),
+    "C07": ("degenerate-heavy inputs x 4 modes x the help-allowed parameter space run in-process and through the CLI; crashes bucketed by innermost repository frame, files parsed independently and read back with the project's XmapReader, unalignable queries removed and outputs compared",
+            "property-based testing / fuzzing (Hypothesis): crash + format oracle, round-trip through project reader, metamorphic removal"),
+    "C09": ("real CLI with real process pool: -c 1 unperturbed run vs -c in 1..16 with harness-owned completion orders (per-query delays injected by a launcher in the child) and a repetition; byte comparison of all files",
+            "property-based testing (Hypothesis) with schedule perturbation: differential between schedules"),
+    "C10": ("base run vs runs on transformed inputs: query subsets, added queries, permuted molecules, shuffled rows, -qId/-rId vs physically restricted files; records compared per query",
+            "property-based testing (Hypothesis): differential / metamorphic (restriction, permutation)"),
     "C03": ("exhaustive enumeration of every valid matching on an 8x8 (quick) / 10x10 (thorough) grid in both orientations, random matchings up to 300 pairs, and every record of generated end-to-end runs; HitEnum replayed from the first pair",
             "exhaustive small-domain enumeration + Hypothesis, round-trip (replay) oracle"),
     "C08": ("the same generated input run in all four output modes; files compared between modes, joined records checked against their parts from file text, maxDifference boundary probed adaptively",
